@@ -77,6 +77,9 @@ pub struct Feed {
     pub stdin_chunk: usize,
     /// named pipes to create (path, content, chunk size) and feed while the tool runs
     pub fifos: Vec<(std::path::PathBuf, Vec<u8>, usize)>,
+    /// standard input is this REGULAR FILE, already read up to the given offset by "an earlier
+    /// reader" (`{ read header; tool; } < file` in a shell): the tool's input starts at the offset
+    pub stdin_file: Option<(std::path::PathBuf, u64)>,
 }
 
 fn write_chunked(w: &mut dyn Write, data: &[u8], chunk: usize) {
@@ -130,6 +133,14 @@ pub fn run<A: AsRef<std::ffi::OsStr>>(bin: &Path, args: &[A], stdin: Option<&[u8
 }
 
 /// Run a binary with a budget (RSBDD_VERIF_BUDGET) and a generous watchdog.
+/// Variables named like the options of the five tools, with values the options would accept.
+pub const HOSTILE_ENV: [(&str, &str); 30] = [
+    ("FILTER", "false"), ("RETAIN_CHOICES", "true"), ("BENCHMARK", "0"), ("ORDERING", "/nonexistent/ordering.txt"), ("MODEL", "true"), ("TRUTHTABLE", "true"), ("VARS", "true"),
+    ("EVALUATE", "zz_from_the_environment"), ("INPUT", "/nonexistent/input.txt"), ("OUTPUT", "/dev/null"), ("DOT", "/dev/null"), ("PARSETREE", "/dev/null"), ("PLOT", "false"), ("EXPORT_ORDERING", "true"),
+    ("QUEENS", "3"), ("N", "3"), ("ROOT", "1"), ("R", "1"), ("UNDIRECTED", "true"), ("ALL", "true"), ("COLORS", "2"), ("CONVERT", "/nonexistent/graph.csv"), ("COMPLETE", "true"), ("VERTICES", "2"), ("EDGES", "1"),
+    ("CLAP_ENV", "1"), ("ARGS", "-t"), ("RSBDD_ARGS", "-t -m"), ("RUST_LOG", "trace"), ("NO_COLOR", "1"),
+];
+
 pub fn run_fed<A: AsRef<std::ffi::OsStr>>(bin: &Path, args: &[A], stdin: Option<&[u8]>, feed: &Feed, cwd: Option<&Path>, budget: Option<(u64, u64)>, watchdog: Duration) -> RunOut {
     let stop = std::sync::Arc::new(std::sync::atomic::AtomicBool::new(false));
     for (p, _, _) in &feed.fifos {
@@ -138,9 +149,39 @@ pub fn run_fed<A: AsRef<std::ffi::OsStr>>(bin: &Path, args: &[A], stdin: Option<
         }
     }
     let mut cmd = Command::new(bin);
-    cmd.args(args).stdin(if stdin.is_some() { Stdio::piped() } else { Stdio::null() }).stdout(Stdio::piped()).stderr(Stdio::piped());
+    let positioned = feed.stdin_file.as_ref().and_then(|(p, off)| {
+        use std::io::Seek;
+        let mut f = std::fs::File::open(p).ok()?;
+        f.seek(std::io::SeekFrom::Start(*off)).ok()?;
+        Some(f)
+    });
+    let stdin_piped = stdin.is_some() && positioned.is_none();
+    cmd.args(args).stdin(match positioned {
+        Some(f) => Stdio::from(f),
+        None if stdin.is_some() => Stdio::piped(),
+        None => Stdio::null(),
+    }).stdout(Stdio::piped()).stderr(Stdio::piped());
     cmd.env("RUST_BACKTRACE", "0");
     cmd.env_remove("RSBDD_VERIF_BUDGET");
+    // Every second run (chosen by the arguments, so a replay does the same) starts in an
+    // environment that already exports variables named like the tools' options, as a Makefile or
+    // a CI job may well do (BENCHMARK=0, FILTER=.., OUTPUT=..). The tools document no reading of
+    // the environment: nothing may change.
+    {
+        use std::os::unix::ffi::OsStrExt;
+        let mut h = 0xcbf29ce484222325u64;
+        for a in args {
+            for b in a.as_ref().as_bytes() {
+                h = (h ^ *b as u64).wrapping_mul(0x100000001b3);
+            }
+        }
+        if h % 2 == 0 {
+            for (k, v) in HOSTILE_ENV {
+                cmd.env(k, v);
+                cmd.env(format!("RSBDD_{}", k), v);
+            }
+        }
+    }
     if let Some((s, f)) = budget {
         cmd.env("RSBDD_VERIF_BUDGET", format!("{},{}", s, f));
     }
@@ -165,7 +206,7 @@ pub fn run_fed<A: AsRef<std::ffi::OsStr>>(bin: &Path, args: &[A], stdin: Option<
         let _ = se.read_to_end(&mut b);
         b
     });
-    if let Some(input) = stdin {
+    if let (Some(input), true) = (stdin, stdin_piped) {
         if let Some(mut si) = child.stdin.take() {
             let data = input.to_vec();
             let chunk = feed.stdin_chunk;
